@@ -522,6 +522,18 @@ func (b *Builder) ensureRemotePackage(ctx context.Context, pkgAddr sourceaddrs.R
 		b.remotePackageMeta[pkgAddr] = response.PackageMeta
 	}
 
+	// The rule file is read before the walk below has validated anything, and
+	// its rules can remove the rule file itself. A symlink in its place must
+	// therefore pass the walk's test first: otherwise rules from outside the
+	// package would be followed, and a link leaving the package that they
+	// exclude would never be looked at.
+	ignorePath := filepath.Join(workDir, ".terraformignore")
+	if info, err := os.Lstat(ignorePath); err == nil && info.Mode()&os.ModeSymlink != 0 {
+		if err := packagePrepareWalkFn(workDir, nil)(ignorePath, info, nil); err != nil {
+			return "", fmt.Errorf("failed to prepare package directory: %#w", err)
+		}
+	}
+
 	// If the package has a .terraformignore file then we now need to remove
 	// everything that we've been instructed to ignore.
 	ignoreRules, err := ignorefiles.LoadPackageIgnoreRules(workDir)
